@@ -350,6 +350,9 @@ impl Property for C18 {
             Tier::Thorough => Budget { cases: 150_000, shards: 16, min_len: 24, max_len: 80 },
         }
     }
+    fn fuzz_targets(&self) -> Vec<(&'static str, u64, usize)> {
+        vec![("prop", 300_000, 80), ("parse_rules", 1_500_000, 600), ("parse_metric_line", 2_000_000, 200)]
+    }
     fn rule(&self) -> String {
         "bytes -> family (five rule families or metric item), 1-3 rules built from the field menus of C12 (serialisable variants, finite floats incl. 0.1, 1/3, 0.30000000000000004, subnormal-boundary, extreme integers), resource name from a pool with unicode, quotes, backslashes, control characters, the `|` separator and the empty string, override maps with such keys; document variant: compact / pretty / fields reordered / one field dropped / one field wrongly typed or unknown variant / truncated at a generated byte / not an array; oracle: parser(to_string(rules)) equals the rules (PartialEq and every field via the JSON value), a dropped field equals Default (id: fresh), malformed documents are Err and never panic, the parsed rule gives the same decisions as the original on a short entry script (flow, isolation, hotspot); metric items with arbitrary counters: from_string(to_string(item)) equals the item with `|` replaced by `_` in the name; non-trivial = rule differs from Default in >= 3 fields, or the name needs escaping, or a field was dropped; distinct = distinct decoded cases".into()
     }
